@@ -74,6 +74,9 @@ def main():
         req = json.loads(line)
         if req['cmd'] == 'replay':
             r = replay(req)
+        elif req['cmd'] in ('schemas', 'lemma'):
+            import lemmas
+            r = lemmas.handle(req)
         else:
             import modules
             r = modules.handle(req)
